@@ -27,6 +27,11 @@ ASSUMPTIONS = [
 @st.composite
 def params(draw, tier):
     p = draw(c12.params(tier))
+    if p["kind"] in ("voronoi", "moebius") and draw(st.integers(0, 5)) == 0:
+        # a large tissue in which a single junction moves: one junction far faster than the mean junction speed
+        p["n_cells"] = draw(st.integers(22, 30))
+        p["sub"] = None
+        p["steps"][0] = {"kind": "local", "frac": 0.6, "seed": draw(st.integers(0, 2 ** 32 - 1))}
     p["outside"] = False
     for s in p["steps"]:
         s["frac"] = min(s["frac"], 0.9)
